@@ -49,6 +49,10 @@ TRUSTED_BASE = [
 ]
 ASSUMPTIONS = [
     "single-threaded use of TunnelEndpoint (no concurrent send); the model has no interleaving inside one call",
+    "the opt-in needs a TunnelEndpoint (otherwise Community.__init__ only warns and the overlay sends raw)",
+    "every send of an overlay goes through self.endpoint.send (sampled on five emitters of real Community objects)",
+    "send_data raising is injected at send_cell; remove_circuit's close() happens when its @task body runs, one loop "
+    "iteration after the call; circuit ids are not reused while the theorems' histories last",
     "an overlay's packets start with its 22-byte prefix (Community.ezr_pack / _ez_pack); anonymity is keyed on packet[:22]",
     "circuit ids are opaque: the stub hands them out sequentially, the real community draws them at random",
 ]
@@ -57,6 +61,7 @@ CTYPES = ["DATA", "IP_SEEDER", "RP_SEEDER", "RP_DOWNLOADER"]
 PA = bytes([0, 2]) + bytes(range(0xA0, 0xA0 + 20))
 PB = bytes([0, 2]) + bytes(range(0xB0, 0xB0 + 20))
 PC = bytes([0, 2]) + bytes(range(0xC0, 0xC0 + 20))
+TC_ID = bytes.fromhex("81ded07332bdc775aa5a46f96de9f8f390bbc9f3")     # TunnelCommunity.community_id (checked at run time)
 ODD_KEYS = [PA[:21], PA + b"\x00", b"", PA[:4]]
 FLAG_SETS = [[4], [4], [1, 4], [2, 4], [1, 2, 4], [4, 8], [2], [1], [1, 2], [], None, [8]]
 
@@ -88,6 +93,9 @@ def K():
     logging.disable(logging.CRITICAL)
     loop = asyncio.new_event_loop()     # never runs except to unload overlays; Futures/tasks need a current loop
     asyncio.set_event_loop(loop)
+
+    class InjectedFault(RuntimeError):
+        pass
 
     class RecEndpoint(Endpoint):
         """the wrapped ("raw socket") endpoint: real listener registry, recording send"""
@@ -137,10 +145,17 @@ def K():
             self.next_id += 1
             return c
 
+        fail_after = None        # fault injection: this many more send_cell calls succeed, the next one raises
+
         def send_cell(self, target_addr, payload):
             if payload.msg_id != 1:      # only DataPayload is what send_data produces
                 self.log.append(("cell", payload.msg_id))
                 return
+            if self.fail_after is not None:
+                if self.fail_after == 0:
+                    self.fail_after = None
+                    raise InjectedFault("send_cell failed (injected serializer/crypto error)")
+                self.fail_after -= 1
             self.log.append(("data", payload.circuit_id, target_addr, payload.dest_address, payload.org_address,
                              payload.data))
 
@@ -180,11 +195,17 @@ def K():
         def on_packet(self, packet):
             self.log.append(("deliver", self.lid))
 
-    keys = [default_eccrypto.generate_key("curve25519") for _ in range(4)]
+    import random as _random
+    from ipv8.messaging.anonymization.community import TunnelSettings
+    from ipv8.messaging.anonymization.payload import DataPayload
+    _kr = _random.Random(0xC07)      # key material is fixed, so overlay packets are the same bytes in every run
+    keys = [default_eccrypto.key_from_private_bin(b"LibNaCLSK:" + bytes(_kr.randrange(256) for _ in range(64)))
+            for _ in range(4)]
     hop_peers = {k: Peer(keys[k % 4].pub(), (f"10.1.0.{k}", 2000 + k)) for k in range(1, 10)}
     dest = {k: (f"10.0.0.{k}", 1000 + k) for k in range(0, 10)}
-    _K = SimpleNamespace(tunnel=tunnel, TunnelEndpoint=TunnelEndpoint, RecEndpoint=RecEndpoint, StubTC=StubTC, Lis=Lis,
-                         LifeTC=LifeTC,
+    _K = SimpleNamespace(asyncio=asyncio, tunnel=tunnel, TunnelEndpoint=TunnelEndpoint, RecEndpoint=RecEndpoint, StubTC=StubTC, Lis=Lis,
+                         LifeTC=LifeTC, TunnelSettings=TunnelSettings, DataPayload=DataPayload,
+                         InjectedFault=InjectedFault,
                          hop_peers=hop_peers, dest=dest, rdest={v: k for k, v in dest.items()},
                          rhop={p.address: k for k, p in hop_peers.items()}, keys=keys, Peer=Peer,
                          EXIT_IPV8=tunnel.PEER_FLAG_EXIT_IPV8, InvalidStateError=asyncio.InvalidStateError,
@@ -217,6 +238,10 @@ class Real:
             self.bound = cap
         self.tc = make_tc(self.log) if make_tc else k.StubTC(self.log, self.inner)
         self.torn = {}              # circuit id -> virtual time at which its removal was requested (destroy sent)
+        self.tc_prefix = None       # prefix of a tunnel community constructed ON this endpoint (its own, plain, traffic)
+        self.real_tc = False
+        self.helpers = []           # peer-side communities used to craft inbound packets
+        self.outside = []           # what was emitted while no TunnelEndpoint.send was in progress (bypass detection)
         # bookkeeping (never read back from the endpoint)
         self.anon = {}
         self.att = False
@@ -235,6 +260,9 @@ class Real:
     def check_quiet(self, opname):
         """ops other than send/notify must not emit anything"""
         for e in self.log:
+            if e[0] == "raw" and self.tc_prefix is not None and e[2][:22] == self.tc_prefix \
+                    and not self.anon.get(self.tc_prefix, False):
+                continue        # the tunnel community's own control traffic (destroy, …): a plain overlay
             if e[0] == "raw":
                 self._bad(f"TunnelEndpoint.{opname}:raw-leak" if (e[1], e[2]) in self.accepted else
                           f"TunnelEndpoint.{opname}:spurious-raw-send",
@@ -270,15 +298,17 @@ class Real:
         return c, None
 
     # -- ops ---------------------------------------------------------------------------------------------------
-    def send(self, a, packet):
+    def send(self, a, packet, owner_wants=False):
         k = self.k
         addr = k.dest[a]
-        is_anon = bool(self.anon.get(packet[:22], False))
+        # "asked for anonymity": the prefix was opted in / switched on, or the emitting overlay itself asked for it
+        # (an explicit set_anonymity(prefix, False) in the history overrides the opt-in, as the property's "toggled")
+        is_anon = bool(self.anon.get(packet[:22], owner_wants))
         before = list(self.ep.send_queue)
         self.log.clear()
         exc = None
         try:
-            self.ep.send(addr, packet)
+            type(self.ep).send(self.ep, addr, packet)    # the class's method (an instance-level tap may be installed)
         except Exception as e:  # noqa: BLE001
             exc = type(e).__name__
         after = list(self.ep.send_queue)
@@ -298,6 +328,7 @@ class Real:
                           f"anonymized send handed {r[2].hex()} for {r[1]} to the wrapped endpoint's send() "
                           f"(tunnel community {'attached' if self.att else 'absent'}, {len(self.tc.circuits)} circuits)")
             inputs = before + [(addr, packet)]
+            unused = list(inputs)
             for d in datas:
                 _, cid, target, dst, org, data = d
                 c, why = self.circuit_ok(cid)
@@ -308,11 +339,25 @@ class Real:
                 elif target != c._hops[0].peer.address:
                     self._bad("TunnelEndpoint.send:wrong-first-hop", f"send_data targets {target}, first hop is "
                                                                     f"{c._hops[0].peer.address}")
-                if (dst, data) not in inputs:
+                if (dst, data) in unused:
+                    unused.remove((dst, data))
+                elif (dst, data) in inputs:
+                    self._bad("TunnelEndpoint.send:duplicated-packet", f"send_data carries ({dst}, {data.hex()}) twice")
+                else:
                     self._bad("TunnelEndpoint.send:altered-packet", f"send_data carries ({dst}, {data.hex()}) which was "
                                                                    "neither sent now nor queued")
                 if tuple(org) != ("0.0.0.0", 0):
                     self._bad("TunnelEndpoint.send:origin", f"send_data origin {org} reveals an address")
+            # "held in a bounded queue UNTIL such a circuit exists": if a circuit that is ready in the property's sense
+            # (registered, not being torn down, all hops, configured length, IPv8 exit) exists, the packet must go out
+            if self.att and not datas and not exc:
+                usable = [cid for cid in self.tc.circuits if self.circuit_ok(cid)[1] is None]
+                if usable:
+                    self._bad("TunnelEndpoint.send:ready-circuit-ignored",
+                              f"anonymized packet was {'queued' if (addr, packet) in after else 'dropped'} although circuit "
+                              f"{usable[0]} is READY with the configured length {self.hops} and an IPv8 exit "
+                              f"(circuits in dict order: "
+                              f"{[(c.circuit_id, 'closing' if c._closing else f'{len(c._hops)}/{c.goal_hops}') for c in self.tc.circuits.values()]})")
             for x in after:
                 if x not in inputs:
                     self._bad("TunnelEndpoint.send:queue-content", f"queue holds {x} which was never accepted")
@@ -333,11 +378,13 @@ class Real:
                 if x in gone:
                     gone.remove(x)
             for x in gone:
-                evs.append(f"drop:{'o' if self.att else 'n'}:{k.rdest.get(x[0], '?')}:{hx(x[1])}")
-        if exc:
+                what = "fail" if exc == "InjectedFault" else ("drop:o" if self.att else "drop:n")
+                evs.append(f"{what}:{k.rdest.get(x[0], '?')}:{hx(x[1])}")
+        if exc and exc != "InjectedFault":
             evs.append(f"raised:{exc}")
         self.last_counts = (len(raws), len(datas), sum(1 for e in self.log if e[0] == "create"),
-                            sum(1 for e in evs if e.startswith("drop:")))
+                            sum(1 for e in evs if e.startswith(("drop:", "fail:"))))
+        self.log.clear()
         return (" ".join(evs) if evs else "-") + f" q={len(after)}"
 
     def quiet(self, name, fn):
@@ -422,6 +469,51 @@ class Real:
             return f"raw={tot[0]} data={tot[1]} create={tot[2]} drop={tot[3]} q={len(self.ep.send_queue)}"
         if kind == "dump":
             return self.dump()
+        if kind == "fail":
+            self.tc.fail_after = op[1]
+            return f"- q={len(self.ep.send_queue)}"
+        if kind == "tcinit":
+            # the real attach path: a TunnelCommunity constructed ON the TunnelEndpoint (as ipv8_service does)
+            made = []
+
+            def construct():
+                tc = k.LifeTC(self.log, k.TunnelSettings(my_peer=k.my_peer, endpoint=self.ep, network=k.Network()))
+                tc.cancel_pending_task("do_circuits")
+                tc.cancel_pending_task("do_ping")
+                made.append(tc)
+            reply = self.quiet("TunnelCommunity.__init__", construct)
+            if made:
+                self.tc, self.real_tc = made[0], True
+                self.tc_prefix = made[0].get_prefix()
+                self.att, self.hops = True, 1        # attached with the default length
+                self.anon.pop(self.tc_prefix, None)  # its own traffic is plain by construction
+            return reply
+        if kind == "unload":
+            ov, _ = self.overlays[op[1]]
+            self.overlays[op[1]] = (None, False)
+            return self.quiet("Community.unload", lambda: k.loop.run_until_complete(ov.unload()))
+        if kind == "tcdata":
+            # inbound DATA cell from the first hop of circuit idx carrying another overlay's packet
+            c = self.circuit_at(op[1])
+            if c is None or not c._hops:
+                return f"- q={len(self.ep.send_queue)}"
+            inner = PA + b"inbound"
+            cell = b"\x00" * 23 + self.tc.serializer.pack_serializable(
+                k.DataPayload(c.circuit_id, ("0.0.0.0", 0), k.dest[1], inner))
+            self.log.clear()
+            exc = None
+            try:
+                self.tc.on_data(c._hops[0].peer.address, cell, c.circuit_id)
+            except Exception as e:  # noqa: BLE001
+                exc = type(e).__name__
+            got = [e[1] for e in self.log if e[0] == "deliver"]
+            want = [l.lid for l in self.listeners if bool(getattr(l, "anonymize", False))]
+            if sorted(got) != sorted(want):
+                self._bad("TunnelCommunity.on_data:delivery",
+                          f"tunnel data for another overlay was delivered to listeners {got}, expected the anonymized ones "
+                          f"{want} (anonymize flags {[(l.lid, getattr(l, 'anonymize', None)) for l in self.listeners]})")
+            evs = [f"deliver:{g}" for g in got] + ([f"raised:{exc}"] if exc else [])
+            return (" ".join(evs) if evs else "-") + f" q={len(self.ep.send_queue)}"
         if kind == "overlay":
             # a real Community subclass constructed over the TunnelEndpoint; the oracle's notion of "asked for
             # anonymity" is the settings object handed in, never what the endpoint recorded
@@ -441,9 +533,71 @@ class Real:
         raise ValueError(kind)
 
     def close(self):
+        loop = self.k.loop
         for ov, _ in self.overlays:
-            self.k.loop.run_until_complete(ov.unload())
-        self.overlays = []
+            if ov is not None:
+                loop.run_until_complete(ov.unload())
+        for h in self.helpers:
+            loop.run_until_complete(h.unload())
+        if self.real_tc and not loop.is_closed() and self.k.asyncio.get_event_loop_policy().get_event_loop() is loop:
+            loop.run_until_complete(self.tc.unload())
+        self.overlays, self.helpers = [], []
+
+    def emit(self, op):
+        """("emit", overlay index, how, address index, byte): the overlay produces traffic through its own code.
+        TunnelEndpoint.send is wrapped by a pass-through tap, so every call is checked like a harness `send`; anything
+        that reaches the wrapped endpoint or send_data OUTSIDE such a call bypassed the TunnelEndpoint.
+        Returns the (send op, reply) pairs, for the model."""
+        k = self.k
+        _, idx, how, a, byte = op
+        ov, want = self.overlays[idx]
+        if ov is None:
+            return []
+        out = []
+        outside = []
+
+        def tap(address, packet):
+            outside.extend(self.log)
+            if address not in k.rdest:              # an address the overlay came up with itself
+                n = 100 + len(k.rdest)
+                k.rdest[address], k.dest[n] = n, address
+            sop = ("send", k.rdest[address], packet)
+            out.append((sop, self.send(k.rdest[address], packet, owner_wants=want)))
+        self.log.clear()
+        self.ep.send = tap
+        exc = None
+        try:
+            if how == "walk_to":
+                ov.walk_to(k.dest[a])
+            elif how == "send_intro":
+                ov.send_introduction_request(k.Peer(k.keys[1].pub(), k.dest[a]))
+            elif how == "puncture":
+                ov.endpoint.send(k.dest[a], ov.create_puncture(k.dest[1], k.dest[2], 7))
+            elif how == "respond":
+                # an introduction request arrives (from the socket or the tunnel, the handler is the same): the overlay
+                # answers with an introduction response (and possibly a puncture request) through its endpoint
+                peer_ov = type(ov)(k.CommunitySettings(my_peer=k.Peer(k.keys[2]), endpoint=k.RecEndpoint([]),
+                                                       network=k.Network()))
+                self.helpers.append(peer_ov)
+                ov.on_packet((k.dest[a], peer_ov.create_introduction_request(k.dest[a])))
+            else:
+                ov.endpoint.send(k.dest[a], ov.get_prefix() + bytes([byte]) + b"payload")
+        except Exception as e:  # noqa: BLE001
+            exc = type(e).__name__
+        finally:
+            del self.ep.send
+        outside.extend(self.log)
+        self.log.clear()
+        for e in outside:
+            if e[0] == "raw" and want:
+                self._bad(f"Community.{how}:raw-bypass",
+                          f"anonymized overlay handed {e[2].hex()[:60]}… for {e[1]} to the wrapped endpoint without going "
+                          "through TunnelEndpoint.send")
+            elif e[0] == "data":
+                self._bad(f"Community.{how}:send_data-bypass", "send_data called outside TunnelEndpoint.send")
+        self.bypass = [e for e in outside if e[0] in ("raw", "data")]
+        self.emit_exc = exc
+        return out
 
     def dump(self):
         k = self.k
@@ -457,7 +611,7 @@ class Real:
         lis = [f"{l.lid}:" + ("none" if not hasattr(l, "anonymize") else ("1" if l.anonymize else "0"))
                for l in self.inner._listeners if hasattr(l, "lid")]
         return (f"cap={ep.send_queue.maxlen} hops={ep.hops} att={'1' if ep.tunnel_community is not None else '0'} "
-                f"can={'1' if tc.can_create else '0'} set=[{','.join(sets)}] q=[{','.join(q)}] "
+                f"can={'1' if tc.can_create else '0'} fail={'none' if tc.fail_after is None else tc.fail_after} set=[{','.join(sets)}] q=[{','.join(q)}] "
                 f"circ=[{','.join(circ)}] lis=[{','.join(lis)}]")
 
 
@@ -486,6 +640,12 @@ def line_of(op) -> str:
         return f"burst {op[1]} {op[2]} {hx(op[3])} {op[4]}"
     if kind == "dump":
         return "dump"
+    if kind == "fail":
+        return f"fail {'none' if op[1] is None else op[1]}"
+    if kind == "tcinit":
+        return "tcinit " + hx(bytes([0, 2]) + TC_ID)
+    if kind == "tcdata":
+        return "notify 1"        # TunnelCommunity.on_data ends in notify_listeners(packet, from_tunnel=True)
     if kind == "overlay":
         return f"overlay {hx(op[1])} {int(op[2])}"
     raise ValueError(kind)
@@ -520,9 +680,9 @@ def gen_random(rng, depth, real: Real, ctr):
     w_send = {"steady": 50, "churn": 30, "starve": 60, "mixed": 40}[mode]
     w_circ = {"steady": 14, "churn": 30, "starve": 4, "mixed": 16}[mode]
     kinds = ["send", "anon", "settc", "newc", "hop", "close", "rm", "cancreate", "burst", "listener", "notify", "dump",
-             "mkready"]
+             "mkready", "fail"]
     weights = [w_send, 5, 5 if mode != "churn" else 10, 4, w_circ, w_circ // 3 + 1, w_circ // 3 + 1, 2, 1, 1, 2, 2,
-               {"steady": 5, "churn": 6, "starve": 1, "mixed": 3}[mode]]
+               {"steady": 5, "churn": 6, "starve": 1, "mixed": 3}[mode], 2]
     # a typical start: overlay A anonymized, community attached
     if rng.random() < 0.8:
         yield ("anon", PA, True)
@@ -580,6 +740,8 @@ def gen_random(rng, depth, real: Real, ctr):
             yield ("listener", len(real.listeners) + 1, rng.choice([True, False, None]))
         elif kind == "notify":
             yield ("notify", rng.random() < 0.5)
+        elif kind == "fail":
+            yield ("fail", rng.choice([0, 0, 1, 2, 3, 7, None]))
         elif kind == "mkready":
             # bring one circuit of the configured length to READY with an IPv8 exit (what do_circuits + CREATED/EXTENDED do)
             hops = real.hops
@@ -606,7 +768,9 @@ def classify(real: Real, op, reply, ctx: Ctx):
     """input-distribution histogram"""
     ctx.count("op:" + op[0])
     if op[0] == "send":
-        if reply.startswith("raw:"):
+        if "fail:" in reply:
+            ctx.count("send:anon->send_data raised after %d ok" % min(reply.count("data:"), 3))
+        elif reply.startswith("raw:"):
             ctx.count("send:plain->raw")
         elif "data:" in reply:
             n = reply.count("data:")
@@ -684,8 +848,8 @@ def compare(ctx: Ctx, lines, expect, histories):
                     break
             rep = {"line": ln, "model": model, "impl": impl}
             if hist:
-                rep["ops"] = [op_to_json(o) for o in hist[1][: i - hist[0] + 1]]
-                rep["kind"] = "ops"
+                rep["ops"] = [op_to_json(o) for o in hist[1] if o[0] != "dump"]
+                rep["kind"] = "life" if any(o[0] in ("rmreq", "tick", "docirc") for o in hist[1]) else "ops"
             ctx.disagree(f"model {model!r} != implementation {impl!r} on `{ln}` (op {i - (hist[0] if hist else 0)} of its "
                          "history)", rep)
             bad += 1
@@ -811,29 +975,25 @@ def exhaustive_tier(ctx: Ctx, name: str, k: int, depth: int, use_model: bool, pl
 # ---------------------------------------------------------------------------------------------------------------------
 # overlay scenarios: real Community objects opting in through settings.anonymize
 # ---------------------------------------------------------------------------------------------------------------------
-def overlay_emit(real: Real, ov, how, a, rng):
-    """let the overlay produce traffic through its own code path; returns the (address, packet) pairs it handed to
-    its endpoint's send() (tapped, so that the same bytes can then be sent - and given to the model - explicitly)"""
-    k = real.k
-    captured = []
-    real.ep.send = lambda address, packet: captured.append((address, packet))
-    try:
-        if how == "walk_to":
-            ov.walk_to(k.dest[a])
-        elif how == "puncture":
-            ov.endpoint.send(k.dest[a], ov.create_puncture(k.dest[1], k.dest[2], 7))
-        elif how == "intro_req":
-            ov.endpoint.send(k.dest[a], ov.create_introduction_request(k.dest[a]))
-        else:
-            ov.endpoint.send(k.dest[a], ov.get_prefix() + bytes([rng.randrange(256)]) + b"payload")
-    finally:
-        del real.ep.send
-    return captured
+def do_emit(ctx: Ctx, real: Real, op, lines, expect, record):
+    """an overlay sends through its own code path; one model `send` line per call that reached TunnelEndpoint.send"""
+    record.append(op)
+    for sop, reply in real.emit(op):
+        lines.append(line_of(sop))
+        expect.append(reply)
+        classify(real, sop, reply, ctx)
+    if real.bypass:
+        ctx.count("overlay-send:bypassed TunnelEndpoint.send")
+        if real.fail is None:       # a plain overlay talking to the wrapped endpoint directly: model expects a send
+            lines.append("dump")
+            expect.append("bypass: " + ", ".join(f"{e[0]}:{e[2].hex()[:24]}" for e in real.bypass))
 
 
 def overlay_tier(ctx: Ctx, n_scen: int, use_model: bool):
     k = K()
     rng = ctx.rng
+    if k.LifeTC.community_id != TC_ID:
+        ctx.disagree("TunnelCommunity.community_id changed", {"line": "tcinit"})
     lines, expect, histories = [], [], []
     for s in range(n_scen):
         real = Real()
@@ -842,8 +1002,18 @@ def overlay_tier(ctx: Ctx, n_scen: int, use_model: bool):
         expect.append("ok")
         start = len(lines)
         try:
+            # when (if at all) the tunnel community is constructed on this endpoint: before, between or after the overlays
+            n_ov = rng.choice([1, 2, 2, 3, 4])
+            tc_at = rng.choice([None, None, 0, rng.randrange(0, n_ov + 1), n_ov])
             cids = {}
-            for j in range(rng.choice([1, 2, 2, 3, 4])):
+            for j in range(n_ov + 1):
+                if tc_at == j:
+                    run_history(ctx, real, [("tcinit",)], lines, expect, record)
+                    ctx.count("overlay:tunnel community constructed on the endpoint after %d overlay(s)" % min(j, 2))
+                    if rng.random() < 0.3:
+                        run_history(ctx, real, [("settc", True, 2)], lines, expect, record)
+                if j == n_ov:
+                    break
                 if cids and rng.random() < 0.4:
                     cid = rng.choice(list(cids))        # a second instance under the same community id (same prefix)
                 else:
@@ -861,36 +1031,52 @@ def overlay_tier(ctx: Ctx, n_scen: int, use_model: bool):
                 cids.setdefault(cid, []).append(want)
                 run_history(ctx, real, [("overlay", cid, want)], lines, expect, record)
                 ctx.count("overlay:anonymize=%s" % want)
-                if rng.random() < 0.7 and j == 0:
+                if rng.random() < 0.7 and j == 0 and tc_at is None:
                     run_history(ctx, real, [("settc", True, rng.choice([1, 1, 2]))], lines, expect, record)
+            if rng.random() < (0.7 if real.real_tc else 0.2):
+                for lid, an in enumerate(rng.sample([True, False, None], rng.choice([1, 2, 3])), 1):
+                    run_history(ctx, real, [("listener", lid, an)], lines, expect, record)
             # traffic produced by the overlays themselves, interleaved with circuit events
             for _ in range(rng.randrange(3, 40)):
                 r = rng.random()
-                if real.fail is not None or not real.overlays:
+                live = [i for i, (ov, _) in enumerate(real.overlays) if ov is not None]
+                if real.fail is not None or not live:
                     break
-                if r < 0.55:
-                    ov, want = rng.choice(real.overlays)
-                    how = rng.choice(["walk_to", "puncture", "raw", "intro_req"])
-                    ctx.count("overlay-send:" + how + (":anonymized" if want else ":plain"))
-                    for address, packet in overlay_emit(real, ov, how, rng.randrange(0, 6), rng):
-                        if address in k.rdest:
-                            run_history(ctx, real, [("send", k.rdest[address], packet)], lines, expect, record)
-                elif r < 0.75:
+                if r < 0.5:
+                    i = rng.choice(live)
+                    how = rng.choice(["walk_to", "puncture", "raw", "send_intro", "respond"])
+                    ctx.count("overlay-send:" + how + (":anonymized" if real.overlays[i][1] else ":plain"))
+                    do_emit(ctx, real, ("emit", i, how, rng.randrange(0, 6), rng.randrange(256)), lines, expect, record)
+                elif r < 0.68:
                     cs = list(real.tc.circuits.values())
                     want_i = [i for i, c in enumerate(cs) if not c._closing and len(c._hops) < c.goal_hops]
                     if want_i:
                         run_history(ctx, real, [("hop", rng.choice(want_i), rng.randrange(1, 10),
                                                  rng.choice(FLAG_SETS[:6]))], lines, expect, record)
-                elif r < 0.85:
+                elif r < 0.76:
                     run_history(ctx, real, [(rng.choice(["close", "rm"]), 0)], lines, expect, record)
-                elif r < 0.93:
+                elif r < 0.82 and not real.real_tc:
                     run_history(ctx, real, [("settc", rng.random() < 0.6, rng.choice([1, 1, 2]))], lines, expect, record)
+                elif r < 0.86:
+                    run_history(ctx, real, [("fail", rng.choice([0, 0, 1, 2]))], lines, expect, record)
+                elif r < 0.91 and len(live) > 1:
+                    # one overlay goes away; the others (possibly sharing its prefix) keep sending
+                    i = rng.choice(live)
+                    ctx.count("overlay:unload of %s overlay while others stay" % ("anonymized" if real.overlays[i][1] else "plain"))
+                    real.do(("unload", i))
+                    record.append(("unload", i))
+                    lines.append("dump")
+                    expect.append(real.dump())
+                elif r < 0.97 and real.real_tc and real.listeners:
+                    cs = [i for i, c in enumerate(real.tc.circuits.values()) if c._hops]
+                    if cs:
+                        run_history(ctx, real, [("tcdata", rng.choice(cs))], lines, expect, record)
                 else:
                     run_history(ctx, real, [("dump",)], lines, expect, record)
+            lines.append("dump")
+            expect.append(real.dump())
         finally:
             real.close()
-        lines.append("dump")
-        expect.append(real.dump())
         histories.append((start, record))
         ctx.case(("o", ctx.seed, s, len(record)), real.nontrivial)
         if real.fail is not None:
@@ -912,8 +1098,7 @@ class Life:
     once and pops its entry at t + settings.remove_tunnel_delay; that schedule drives the model (`rmreq`, `rmdone`)
     and the oracle (`Real.torn`), never the circuit's own `_closing` flag."""
 
-    def __init__(self, ctx, loop, lines, expect, record):
-        from ipv8.messaging.anonymization.community import TunnelSettings
+    def __init__(self, ctx, loop, lines, expect, record, on_endpoint=False):
         from ipv8.messaging.anonymization.payload import DestroyPayload
         k = K()
         self.ctx, self.loop, self.lines, self.expect, self.record = ctx, loop, lines, expect, record
@@ -922,15 +1107,23 @@ class Life:
         tc_raw = k.RecEndpoint(self.tc_log)     # the tunnel community's own (plain) endpoint: destroys, creates, …
 
         def make_tc(log):
-            tc = k.LifeTC(log, TunnelSettings(my_peer=k.my_peer, endpoint=tc_raw, network=k.Network()))
+            tc = k.LifeTC(log, k.TunnelSettings(my_peer=k.my_peer, endpoint=tc_raw, network=k.Network()))
             tc.cancel_pending_task("do_circuits")     # run explicitly (op `docirc`), not every 5 s behind our back
             tc.cancel_pending_task("do_ping")
             return tc
-        self.real = Real(None, make_tc)
-        self.delay = self.real.tc.settings.remove_tunnel_delay
-        self.inactive = self.real.tc.settings.max_time_inactive
+        # on_endpoint: the tunnel community is constructed ON the TunnelEndpoint by the script's first op (`tcinit`),
+        # as ipv8_service does; otherwise on an endpoint of its own and attached with set_tunnel_community
+        self.real = Real(None, None if on_endpoint else make_tc)
         self.pending = []            # (due time, circuit id), in request order
         self.created = {}            # circuit id -> virtual time of creation (= last activity: nothing comes in)
+
+    @property
+    def delay(self):
+        return self.real.tc.settings.remove_tunnel_delay
+
+    @property
+    def inactive(self):
+        return self.real.tc.settings.max_time_inactive
 
     def emit(self, op, line, reply):
         self.record.append(op)
@@ -969,19 +1162,37 @@ class Life:
             if via == "on_destroy":
                 # the handler body behind @lazy_wrapper (signature checking of the datagram is C01's business)
                 type(real.tc).on_destroy.__wrapped__(real.tc, c._hops[0].peer, self.DestroyPayload(c.circuit_id, 1))
+            elif via == "remove_now":
+                real.tc.remove_circuit(c.circuit_id, "harness", remove_now=True, destroy=destroy)
             else:
                 real.tc.remove_circuit(c.circuit_id, "harness", destroy=destroy)
             await self.settle()          # the @task body runs up to its `await sleep(remove_tunnel_delay)`
-            self.request(c.circuit_id)
+            if via == "remove_now":
+                real.torn.setdefault(c.circuit_id, self.loop.time())
+            else:
+                self.request(c.circuit_id)
             real.check_quiet("remove_circuit")
             self.emit(op, f"rmreq {c.circuit_id}", self.q())
+            if via == "remove_now":
+                self.lines.append(f"rmdone {c.circuit_id}")
+                self.expect.append(self.q())
             self.ctx.count(f"life:request via {via}" + (" +destroy" if destroy and via != "on_destroy" else ""))
             self.emit(("dump",), "dump", real.dump())
         elif kind == "docirc":
             now = self.loop.time()
-            victims = [cid for cid, c in real.tc.circuits.items()
-                       if not c._closing and cid not in real.torn and len(c._hops) >= c.goal_hops
-                       and self.created.get(cid, now) < now - self.inactive]
+            st = real.tc.settings
+            victims, arms = [], []
+            for cid, c in real.tc.circuits.items():
+                born = self.created.get(cid, now)
+                if not c._closing and cid not in real.torn and len(c._hops) >= c.goal_hops and born < now - self.inactive:
+                    arms.append("no activity")
+                elif born < now - st.max_time:
+                    arms.append("too old")
+                elif c.bytes_up + c.bytes_down > st.max_traffic:
+                    arms.append("traffic limit")
+                else:
+                    continue
+                victims.append(cid)
             real.log.clear()
             real.tc.do_circuits()
             await self.settle()
@@ -994,7 +1205,14 @@ class Life:
                 self.expect.append(self.q())
             self.ctx.count("op:docirc")
             self.ctx.count("life:do_circuits closes %s" % ("some" if victims else "none"))
+            for arm in arms:
+                self.ctx.count("life:do_remove arm: " + arm)
             self.emit(("dump",), "dump", real.dump())
+        elif kind == "traffic":
+            c = real.circuit_at(op[1])
+            if c is not None:
+                c.bytes_up = real.tc.settings.max_traffic + 1      # as if that much had been relayed
+            self.record.append(op)
         elif kind == "tick":
             real.log.clear()
             await asyncio.sleep(op[1])
@@ -1026,6 +1244,8 @@ def life_script(rng, life: Life, ctr):
     """a history; yields ops, aiming with the real objects' current shape"""
     real = life.real
     hops = rng.choice([1, 1, 2])
+    if not real.real_tc and real.tc.__class__.__name__ == "StubTC":
+        yield ("tcinit",)               # TunnelCommunity.__init__ on the TunnelEndpoint itself
     yield ("anon", PA, True)
     yield ("settc", True, hops)
 
@@ -1070,9 +1290,12 @@ def life_script(rng, life: Life, ctr):
         elif r < 0.5:
             yield from mkready()
         elif r < 0.68:
-            yield ("rmreq", pick(), rng.choice([0, 0, 1, 2]), rng.choice(["remove_circuit", "remove_circuit", "on_destroy"]))
+            yield ("rmreq", pick(), rng.choice([0, 0, 1, 2]),
+                   rng.choice(["remove_circuit", "remove_circuit", "on_destroy", "remove_now"]))
+        elif r < 0.71:
+            yield ("traffic", pick())
         elif r < 0.86:
-            yield ("tick", rng.choice(TICKS))
+            yield ("tick", rng.choice(TICKS + [3600.5] * (rng.random() < 0.15)))
         elif r < 0.92:
             yield ("docirc",)
         elif r < 0.96:
@@ -1081,7 +1304,7 @@ def life_script(rng, life: Life, ctr):
             yield (rng.choice(["close", "rm"]), pick())
 
 
-def run_life(ctx: Ctx, scripts, use_model: bool, where: str):
+def run_life(ctx: Ctx, scripts, use_model: bool, where: str, on_endpoint=None):
     """scripts: list of callables (life) -> iterator of ops"""
     import asyncio
 
@@ -1095,7 +1318,7 @@ def run_life(ctx: Ctx, scripts, use_model: bool, where: str):
         lines.append("reset -")
         expect.append("ok")
         start = len(lines)
-        life = Life(ctx, loop, lines, expect, record)
+        life = Life(ctx, loop, lines, expect, record, on_endpoint=(i % 2 == 1) if on_endpoint is None else on_endpoint)
         try:
             for op in script(life):
                 await life.do(op)
@@ -1108,7 +1331,8 @@ def run_life(ctx: Ctx, scripts, use_model: bool, where: str):
         if life.real.fail is not None:
             sig, what = life.real.fail
             ctx.oracle_fail(sig, f"{what} [after {len(record)} ops, {where}]",
-                            {"kind": "life", "ops": [op_to_json(o) for o in record if o[0] != "dump"]})
+                            {"kind": "life", "on_endpoint": life.real.real_tc,
+                             "ops": [op_to_json(o) for o in record if o[0] != "dump"]})
 
     async def all_of_them():
         for i, script in enumerate(scripts):
@@ -1185,7 +1409,7 @@ def replay(ctx: Ctx, rec: dict):
             got["life"] = life
             return iter(ops)
         n0 = len(ctx.failures)
-        run_life(ctx, [script], False, "replay")
+        run_life(ctx, [script], False, "replay", on_endpoint=bool(r.get("on_endpoint", any(o[0] == "tcinit" for o in ops))))
         life = got["life"]
         for ln, rep in list(zip(life.lines, life.expect))[-10:]:
             print(f"replay: {ln[:100]} -> {rep[:200]}")
@@ -1197,7 +1421,10 @@ def replay(ctx: Ctx, rec: dict):
     ops = [op_from_json(j) for j in r.get("ops", [])]
     out = []
     for op in ops:
-        out.append((line_of(op), real.do(op)))
+        if op[0] == "emit":
+            out += [(line_of(sop), rep) for sop, rep in real.emit(op)] or [("emit", "nothing reached TunnelEndpoint.send")]
+        else:
+            out.append((line_of(op), real.do(op)))
         if real.fail is not None:
             break
     real.close()
